@@ -52,6 +52,11 @@ def run(seed, check, tier="quick"):
         print("refusing: /repo is dirty\n" + out); return 3
     rc, out = sh(["git", "-C", "/repo", "apply", patch])
     if rc:
+        rc, out2 = sh("patch -p1 -F3 -s < %s" % os.path.abspath(patch), cwd="/repo")
+        out += out2
+        sh("find /repo -name '*.orig' -newer %s -delete; find /repo -name '*.rej' -delete" % os.path.abspath(patch))
+    if rc:
+        sh(["git", "-C", "/repo", "checkout", "--", "."])
         print("patch does not apply:", out); return 3
     t0 = time.time()
     try:
@@ -72,6 +77,9 @@ def prun(seed, check, tier="quick"):
     sh(["git", "-C", "/repo", "worktree", "add", "-q", "--detach", wt, "HEAD"])
     try:
         rc, out = sh(["git", "-C", wt, "apply", os.path.abspath(patch)])
+        if rc:  # hook lines added near the hunk since the seed was made: apply with fuzz
+            rc, out2 = sh("patch -p1 -F3 -s < %s" % os.path.abspath(patch), cwd=wt)
+            out += out2
         if rc:
             print("patch does not apply:", out); return 3
         t0 = time.time()
